@@ -187,6 +187,8 @@ class Recorder:
         def _is_overlap(self, point, node, nrexcl=1):
             if (R.script is not None or R.chooser is not None) and point is self.start:
                 out = R.next_outcome(["root", "rootfail"])
+                if out is None:          # a chooser may leave the outcome to the code
+                    return o_overlap(self, point, node, nrexcl)
                 return out == "rootfail"
             return o_overlap(self, point, node, nrexcl)
         patch(rw.RandomWalk, "_is_overlap", _is_overlap)
